@@ -1,10 +1,11 @@
 /-
   C16 — refill equals filling the original paragraph at the new width.
-  Proved relative to C15's round trip (`unfill (fill o₁ p ++ trail) = p ++ trail` with `o₁`'s
-  indents and line ending), which enters as an explicit hypothesis on `unfill`'s result.
+  `refill_fill`: relative to an `unfill` result given as hypothesis; `refill_of_fill`: with C15's
+  round trip (`unfill_fill`) discharging that hypothesis.
 -/
 import TextwrapModel.Refill
 import Lemmas.Split
+import Props.C15
 namespace TW.C16
 
 theorem isSuffixOf_append_self (p e : Text) : e.isSuffixOf (p ++ e) = true := by
@@ -71,6 +72,60 @@ theorem refill_ending (env : Env) (mo : MinimaOracle α) (o2 : Opts) (filled p i
     simp only [hf, Option.map_some, if_true, Option.some.injEq] at hr
     subst hr
     exact isSuffixOf_append_self f _
+
+/-- **`refill(fill(t, o₁), o₂) = fill(t, o₂ with o₁'s indents)`** for a paragraph `t` of
+    single-spaced words that do not begin with prefix characters, `o₁` with indents made of prefix
+    characters and breaks at spaces only, whenever the filled form has at least two lines; `o₂`
+    is arbitrary (any width, algorithm, separator, line ending). A trailing line ending is
+    preserved and converted to `o₂`'s. The right-hand side does not mention `o₁`'s width. -/
+-- @audit TW.C16.refill_of_fill
+theorem refill_of_fill (env : Env) (mo : MinimaOracle α) (hmo : MoShape mo) (o1 o2 : Opts)
+    (hsep : o1.sep = .ascii) (hbw : o1.breakWords = false)
+    (hii : o1.initialIndent.all isPrefixChar = true) (hsi : o1.subsequentIndent.all isPrefixChar = true)
+    (ws : List Text) (hne : ws ≠ []) (hws : ∀ w ∈ ws, WordOk w)
+    (hpts : ∀ w ∈ ws, o1.splitter.points env.isAlnum w = [])
+    (filled : Text) (hf : fill env mo o1 (joinWith [SP] ws) = some filled)
+    (ls : List Text) (hw : wrap env mo o1 (joinWith [SP] ws) = some ls) (h2 : 2 ≤ ls.length) :
+    refill env mo o2 filled =
+      fill env mo { o2 with initialIndent := o1.initialIndent, subsequentIndent := o1.subsequentIndent }
+        (joinWith [SP] ws) ∧
+    refill env mo o2 (filled ++ o1.lineEnding.str) =
+      (fill env mo { o2 with initialIndent := o1.initialIndent, subsequentIndent := o1.subsequentIndent }
+        (joinWith [SP] ws)).map (· ++ o2.lineEnding.str) := by
+  obtain ⟨ls', hw', _, u1, u2⟩ := C15.unfill_fill env mo hmo o1 hsep hbw hii hsi ws hne hws hpts filled hf
+  rw [hw] at hw'
+  simp only [Option.some.injEq] at hw'
+  subst hw'
+  have hn : ¬ ls.length ≤ 1 := by omega
+  simp only [hn, if_false] at u1 u2
+  have hlf := (C15.para_chars ws hws).1
+  constructor
+  · have := refill_fill env mo o2 filled (joinWith [SP] ws) o1.initialIndent o1.subsequentIndent
+      (maxWidth env.cw 0 ls) o1.lineEnding false hlf (by simpa using u1)
+    rw [this]
+    cases fill env mo { o2 with initialIndent := o1.initialIndent, subsequentIndent := o1.subsequentIndent }
+      (joinWith [SP] ws) <;> simp
+  · exact refill_fill env mo o2 (filled ++ o1.lineEnding.str) (joinWith [SP] ws) o1.initialIndent
+      o1.subsequentIndent (maxWidth env.cw 0 ls) o1.lineEnding true hlf (by simpa using u2)
+
+/-- consequently the result of `refill` does not depend on the width (or algorithm) at which
+    its input had been filled -/
+-- @audit TW.C16.refill_width_independent
+theorem refill_width_independent (env : Env) (mo : MinimaOracle α) (hmo : MoShape mo) (o1 o1' o2 : Opts)
+    (hind : o1'.initialIndent = o1.initialIndent ∧ o1'.subsequentIndent = o1.subsequentIndent)
+    (hsep : o1.sep = .ascii) (hbw : o1.breakWords = false) (hsep' : o1'.sep = .ascii) (hbw' : o1'.breakWords = false)
+    (hii : o1.initialIndent.all isPrefixChar = true) (hsi : o1.subsequentIndent.all isPrefixChar = true)
+    (ws : List Text) (hne : ws ≠ []) (hws : ∀ w ∈ ws, WordOk w)
+    (hpts : ∀ w ∈ ws, o1.splitter.points env.isAlnum w = [])
+    (hpts' : ∀ w ∈ ws, o1'.splitter.points env.isAlnum w = [])
+    (f f' : Text) (hf : fill env mo o1 (joinWith [SP] ws) = some f)
+    (hf' : fill env mo o1' (joinWith [SP] ws) = some f')
+    (ls ls' : List Text) (hw : wrap env mo o1 (joinWith [SP] ws) = some ls) (h2 : 2 ≤ ls.length)
+    (hw' : wrap env mo o1' (joinWith [SP] ws) = some ls') (h2' : 2 ≤ ls'.length) :
+    refill env mo o2 f = refill env mo o2 f' := by
+  rw [(refill_of_fill env mo hmo o1 o2 hsep hbw hii hsi ws hne hws hpts f hf ls hw h2).1,
+    (refill_of_fill env mo hmo o1' o2 hsep' hbw' (by rw [hind.1]; exact hii) (by rw [hind.2]; exact hsi)
+      ws hne hws hpts' f' hf' ls' hw' h2').1, hind.1, hind.2]
 
 end
 end TW.C16
